@@ -178,6 +178,8 @@ class Remove(AbstractCommand):
     def do_execute(self):
         if self.index is None:
             self.index = self._collection.index(self.value)
+        elif self.index < 0:
+            self.index += len(self._collection)
         self._collection.pop(self.index)
 
 
